@@ -329,6 +329,9 @@ def sign(x, out=None, n=0):
 def clip(a_min, a_max, x, out=None, n=0):
     if n == 1:
         # the derivative is 1.0 in the interval and 0.0 outside the interval
+        # (a bound given as None is infinite)
+        a_min = -np.inf if a_min is None else a_min
+        a_max = np.inf if a_max is None else a_max
         gt = np.greater_equal(x, a_min)
         lt = np.less_equal(x, a_max)
         if out is None:
